@@ -125,6 +125,20 @@ AUTODECL = """
     ox = x + z;
 """
 
+EXOG = """
+!transition-variables
+    x, z
+!exogenous-variables
+    w, v
+!log-variables
+    w, z
+!parameters
+    rx, mu
+!transition-equations
+    x = rx*x{-1} + (1-rx)*mu + log(w) + v;
+    log(z) = 0.5*log(z{-1}) + 0.1*x;
+"""
+
 SEQ_A = """
 !parameters
     c0, ss
@@ -148,6 +162,10 @@ def twice(x):
     return 2 * x
 
 
+def thrice(x):
+    return 3 * x
+
+
 TEMPLATES = {
     "lin_fwd": {"cls": "sim", "source": LIN_FWD, "flags": {"linear": True},
                 "params": {"a": (0.3, 0.7), "b": (0.1, 0.4), "c": (0.3, 0.7), "rho": (0.1, 0.8), "ss_pi": (0.0, 3.0)},
@@ -169,6 +187,10 @@ TEMPLATES = {
     "autodecl": {"cls": "sim", "source": AUTODECL, "flags": {"linear": True}, "autodeclare_as": "parameters",
                  "params": {"rx": (0.1, 0.9), "rz": (0.1, 0.9), "kk": (-0.5, 0.5), "mu": (-1.0, 2.0)},
                  "init": {}, "shocks": ["ex", "ez"], "shock_size": 1.0, "measurement": True},
+    # exogenous variables, one of them a log-variable; deterministic, so the whole portable clause applies
+    "exog": {"cls": "sim", "source": EXOG, "flags": {"flat": True, "deterministic": True},
+             "params": {"rx": (0.2, 0.8), "mu": (0.5, 1.5)},
+             "init": {"w": 2.0, "v": 0.1, "x": 1.0, "z": 1.0}, "shocks": [], "shock_size": 0.0, "measurement": False},
     "seq_a": {"cls": "seq", "source": SEQ_A, "params": {"c0": (0.2, 0.9), "ss": (0.1, 2.0)}},
     "seq_b": {"cls": "seq", "source": SEQ_B, "params": {"c0": (0.2, 0.9), "c1": (0.1, 0.8), "ss": (0.5, 2.0)}},
     "var1": {"cls": "var", "names": ["x", "z"], "order": 1, "intercept": True},
@@ -275,11 +297,19 @@ class SimAdapter:
         ir = _irispie()
         t = TEMPLATES[tname]
         kw = dict(t["flags"])
+        ctx = None
         if t.get("context"):
-            kw["context"] = {"twice": twice}
+            ctx = {"twice": twice}
+            kw["context"] = ctx
         if t.get("autodeclare_as"):
             kw["autodeclare_as"] = t["autodeclare_as"]
-        return ir.Simultaneous.from_string(t["source"], **kw)
+        m = ir.Simultaneous.from_string(t["source"], **kw)
+        if ctx is not None:
+            # the dict belongs to the caller, who goes on using it (say, for a second model): nothing the caller does
+            # to it afterwards may reach the model or the replicas taken from it later
+            ctx["twice"] = thrice
+            ctx["unrelated"] = 1.0
+        return m
 
     # -- mutators ---------------------------------------------------------------------------------
     def mutate(self, m, op):
